@@ -15,11 +15,11 @@ import (
 func init() {
 	Register(&Rule{
 		ID: "C24", Section: "5 C24",
-		Technique: "use census of framing-header reads (count inspected vs element 0 only), natural-loop exit analysis of the Transfer-Encoding scan, resolved branch facts on every success return of fixTransferEncoding/fixLength/parseContentLength/readTransfer/ReadRequest/parseRequestLine, validator-gate search (dominating branch on a predicate whose constant-folded verdict rejects SP/CR) before the header-map insertion of ReadMIMEHeaderAndKeys, table agreement of isTokenTable with RFC 7230 tchar, value-origin census of the method consulted by the shared request/response framing code (who-may-write transferReader.RequestMethod, call-site arguments) with response-only guard recognition",
+		Technique: "use census of framing-header reads (count inspected vs element 0 only), natural-loop exit analysis of the Transfer-Encoding scan, resolved branch facts on every success return of fixTransferEncoding/fixLength/parseContentLength/readTransfer/ReadRequest/parseRequestLine, validator-gate search (dominating branch on a predicate whose constant-folded verdict rejects SP/CR) before the header-map insertion of ReadMIMEHeaderAndKeys, table agreement of isTokenTable with RFC 7230 tchar, value-origin census of the method consulted by the shared request/response framing code (who-may-write transferReader.RequestMethod, call-site arguments) with response-only guard recognition, two-context forward dataflow of the sticky error field of the body decoders (pending-verdict state, cleared on the nil edge of a fresh test of the field, helper methods summarised per entry state), backing-block family analysis of the slices stored into header maps (phi/reslice closure, capacity bound vs start of the remaining block)",
 		Meta: core.Meta{
 			Level:       "other",
-			Explanation: "Decides: (a) multiplicity: fixTransferEncoding and fixLength must inspect the number of Transfer-Encoding / Content-Length field values (len or a loop over all) instead of element 0 / GetDirect only; (b) Transfer-Encoding grammar: the loop over the comma-separated codings is left early only into an error return, every element either is stored as \"chunked\" or ends in an error, a non-empty result has len <= 1 and is returned only after delete(header, \"Content-Length\"); chunked() is len(te) > 0 && te[0|last] == \"chunked\"; (c) Content-Length: read only when not chunked, parse errors are returned, the accepted value is the parsed one, parseContentLength accepts only err == nil && n >= 0 and must not accept a sign (ParseUint or a digit gate); (d) readTransfer returns nil only when fixTransferEncoding, fixLength and fixTrailer succeeded, stores their results, and the length-delimited body is LimitReader(r, that length) under length > 0; (e) ReadRequest returns a request only when parseRequestLine ok, ParseHTTPVersion ok, ParseRequestURI, ReadMIMEHeaderAndKeys and readTransfer succeeded, every other return is (nil, non-nil error), Method/RequestURI/Header are the parsed ones; parseRequestLine says ok only with two separators found; (f) ReadMIMEHeaderAndKeys inserts only under `colon found`, the key is canonicalMIMEHeaderKey(kv[:colon]), the value starts after the colon, a read error is never dropped, and the insertion must be dominated by a validity gate over the name bytes that rejects SP/HT/CR (field-name gate, whitespace before colon); isTokenTable equals the RFC 7230 tchar set and validHeaderFieldByte follows it; (g) request framing is method-independent: every branch of readTransfer/fixLength/fixTransferEncoding/fixTrailer on a request method (noBodyExpected(m), m == \"HEAD\"/\"GET\") either consults a method that can never be the parsed request's own (all writers of transferReader.RequestMethod and all arguments bound to the method parameter are constants or Response.Request.Method) or is taken only under the message-is-a-response evidence (isResponse / the *Response type-switch arm). Not covered: equality with a reference parser on whole streams, obs-fold handling, Host multiplicity, response framing, bare CR inside lines.",
-			RuleText:    "obligations = each framing-header read, each loop exit / element path of the Transfer-Encoding scan, each success return of the framing functions and of ReadRequest, each error return of ReadRequest, each header-map insertion, the token table, each method-dependent branch of the framing functions",
+			Explanation: "Decides: (a) multiplicity: fixTransferEncoding and fixLength must inspect the number of Transfer-Encoding / Content-Length field values (len or a loop over all) instead of element 0 / GetDirect only; (b) Transfer-Encoding grammar: the loop over the comma-separated codings is left early only into an error return, every element either is stored as \"chunked\" or ends in an error, a non-empty result has len <= 1 and is returned only after delete(header, \"Content-Length\"); chunked() is len(te) > 0 && te[0|last] == \"chunked\"; (c) Content-Length: read only when not chunked, parse errors are returned, the accepted value is the parsed one, parseContentLength accepts only err == nil && n >= 0 and must not accept a sign (ParseUint or a digit gate); (d) readTransfer returns nil only when fixTransferEncoding, fixLength and fixTrailer succeeded, stores their results, and the length-delimited body is LimitReader(r, that length) under length > 0; (e) ReadRequest returns a request only when parseRequestLine ok, ParseHTTPVersion ok, ParseRequestURI, ReadMIMEHeaderAndKeys and readTransfer succeeded, every other return is (nil, non-nil error), Method/RequestURI/Header are the parsed ones; parseRequestLine says ok only with two separators found; (f) ReadMIMEHeaderAndKeys inserts only under `colon found`, the key is canonicalMIMEHeaderKey(kv[:colon]), the value starts after the colon, a read error is never dropped, and the insertion must be dominated by a validity gate over the name bytes that rejects SP/HT/CR (field-name gate, whitespace before colon); isTokenTable equals the RFC 7230 tchar set and validHeaderFieldByte follows it; (g) request framing is method-independent: every branch of readTransfer/fixLength/fixTransferEncoding/fixTrailer on a request method (noBodyExpected(m), m == \"HEAD\"/\"GET\") either consults a method that can never be the parsed request's own (all writers of transferReader.RequestMethod and all arguments bound to the method parameter are constants or Response.Request.Method) or is taken only under the message-is-a-response evidence (isResponse / the *Response type-switch arm). (h) a recorded rejection is not lost: for every struct type of bfe_http with a Read method and a field of type error (chunkedReader.err, the sticky verdict of the chunked decoder; bodyEOFSignal.rerr), a forward dataflow over Read and the methods it calls on the same receiver (two contexts: entered with / without a pending verdict) shows that no store assigns a value that may be nil to the field while an error stored since the last `field == nil` test may still be in it - so the CRLF / size-line verdict of one step cannot be overwritten by the next step; (i) field values do not share writable storage: every value list inserted into a map[string][]string in bfe_net/textproto and bfe_http that is cut out of a backing block which keeps being cut for other keys is a three-index slice whose capacity bound is not above the start of the rest of the block (same value or constants), so appending a repeated field line cannot overwrite the value of another field such as Content-Length. Not covered: equality with a reference parser on whole streams, obs-fold handling, Host multiplicity, response framing, bare CR inside lines; for (h) error fields touched by closures or by module functions that receive the reader as an argument are reported as not followed, explicit hand-over of the verdict through other variables is not modelled; for (i) value lists received whole from a caller or another map (aliasing of complete lists between maps) and blocks cut in a form other than block[:a:b] / block[c:] on the same SSA value.",
+			RuleText:    "obligations = each framing-header read, each loop exit / element path of the Transfer-Encoding scan, each success return of the framing functions and of ReadRequest, each error return of ReadRequest, each header-map insertion, the token table, each method-dependent branch of the framing functions, each store to a sticky error field reachable from a Read method, each insertion of a value list into a header map",
 			Assumptions: []string{"strconv.ParseUint rejects a leading sign; net/url.ParseRequestURI returns an error for malformed targets"},
 		},
 		Run: runC24,
@@ -43,6 +43,14 @@ func init() {
 			{Name: "request-method-passed-to-fixlength", File: "bfe_http/transfer.go", Old: "	realLength, err := fixLength(isResponse, t.StatusCode, t.RequestMethod, t.Header, t.TransferEncoding)", New: "	reqMethod := t.RequestMethod\n	if rq, isReq := msg.(*Request); isReq {\n		reqMethod = rq.Method\n	}\n	realLength, err := fixLength(isResponse, t.StatusCode, reqMethod, t.Header, t.TransferEncoding)", Expect: "method-independent|fixLength"},
 			{Name: "silent-head-test-restricted-to-responses", Silent: true, File: "bfe_http/transfer.go", Old: "	if noBodyExpected(requestMethod) {\n		return 0, nil\n	}", New: "	if isResponse && noBodyExpected(requestMethod) {\n		return 0, nil\n	}"},
 			{Name: "silent-te-rename", Silent: true, File: "bfe_http/transfer.go", Old: "	encodings := strings.Split(raw[0], \",\")\n	te := make([]string, 0, len(encodings))", New: "	codings := strings.Split(raw[0], \",\")\n	encodings := codings\n	te := make([]string, 0, len(codings))"},
+			{Name: "latch-crlf-check-after-read-error", File: "bfe_http/chunked.go", Old: "	if cr.n == 0 && cr.err == nil {\n		// end of chunk (CRLF)", New: "	if cr.n == 0 {\n		// end of chunk (CRLF)", Expect: "error-latch|chunkedReader.Read:err-store#1"},
+			{Name: "latch-next-size-line-prefetched", File: "bfe_http/chunked.go", Old: "				cr.err = errors.New(\"malformed chunked encoding\")\n			}\n		}\n	}\n	return n, cr.err", New: "				cr.err = errors.New(\"malformed chunked encoding\")\n			}\n		}\n		cr.beginChunk()\n	}\n	return n, cr.err", Expect: "error-latch|chunkedReader.beginChunk:err-store#0"},
+			{Name: "latch-size-parse-over-line-error", File: "bfe_http/chunked.go", Old: "	line, cr.err = readLine(cr.r)\n	if cr.err != nil {\n		return\n	}\n", New: "	line, cr.err = readLine(cr.r)\n", Expect: "error-latch|chunkedReader.beginChunk:err-store#1"},
+			{Name: "silent-crlf-check-in-helper", Silent: true, File: "bfe_http/chunked.go", Old: "		// end of chunk (CRLF)\n		if _, cr.err = io.ReadFull(cr.r, cr.buf[:]); cr.err == nil {\n			if cr.buf[0] != '\\r' || cr.buf[1] != '\\n' {\n				cr.err = errors.New(\"malformed chunked encoding\")\n			}\n		}\n	}\n	return n, cr.err\n}\n", New: "		cr.endChunk()\n	}\n	return n, cr.err\n}\n\n// endChunk consumes the CRLF that terminates the data of a chunk.\nfunc (cr *chunkedReader) endChunk() {\n	if _, cr.err = io.ReadFull(cr.r, cr.buf[:]); cr.err == nil {\n		if cr.buf[0] != '\\r' || cr.buf[1] != '\\n' {\n			cr.err = errors.New(\"malformed chunked encoding\")\n		}\n	}\n}\n"},
+			{Name: "silent-deferred-crlf-check-tested", Silent: true, File: "bfe_http/chunked.go", Old: "type chunkedReader struct {\n	r   *bfe_bufio.Reader\n	n   uint64 // unread bytes in chunk\n	err error\n	buf [2]byte\n}\n\nfunc (cr *chunkedReader) beginChunk() {\n	// chunk-size CRLF\n	var line []byte\n	line, cr.err = readLine(cr.r)\n	if cr.err != nil {\n		return\n	}\n	cr.n, cr.err = parseHexUint(line)\n	if cr.err != nil {\n		return\n	}\n	if cr.n == 0 {\n		cr.err = io.EOF\n	}\n}\n\nfunc (cr *chunkedReader) Read(b []uint8) (n int, err error) {\n	if cr.err != nil {\n		return 0, cr.err\n	}\n	if cr.n == 0 {\n		cr.beginChunk()\n		if cr.err != nil {\n			return 0, cr.err\n		}\n	}\n	if uint64(len(b)) > cr.n {\n		b = b[0:cr.n]\n	}\n	n, cr.err = cr.r.Read(b)\n	cr.n -= uint64(n)\n	if cr.n == 0 && cr.err == nil {\n		// end of chunk (CRLF)\n		if _, cr.err = io.ReadFull(cr.r, cr.buf[:]); cr.err == nil {\n			if cr.buf[0] != '\\r' || cr.buf[1] != '\\n' {\n				cr.err = errors.New(\"malformed chunked encoding\")\n			}\n		}\n	}\n	return n, cr.err\n}\n\n", New: "type chunkedReader struct {\n	r        *bfe_bufio.Reader\n	n        uint64 // unread bytes in chunk\n	err      error\n	buf      [2]byte\n	checkEnd bool // chunk data fully returned, trailing CRLF not consumed yet\n}\n\nfunc (cr *chunkedReader) beginChunk() {\n	// chunk-size CRLF\n	var line []byte\n	line, cr.err = readLine(cr.r)\n	if cr.err != nil {\n		return\n	}\n	cr.n, cr.err = parseHexUint(line)\n	if cr.err != nil {\n		return\n	}\n	if cr.n == 0 {\n		cr.err = io.EOF\n	}\n}\n\nfunc (cr *chunkedReader) Read(b []uint8) (n int, err error) {\n	if cr.err != nil {\n		return 0, cr.err\n	}\n	if cr.n == 0 {\n		if cr.checkEnd {\n			cr.endChunk()\n			if cr.err != nil {\n				return 0, cr.err\n			}\n		}\n		cr.beginChunk()\n		if cr.err != nil {\n			return 0, cr.err\n		}\n	}\n	if uint64(len(b)) > cr.n {\n		b = b[0:cr.n]\n	}\n	n, cr.err = cr.r.Read(b)\n	cr.n -= uint64(n)\n	if cr.n == 0 && cr.err == nil {\n		if n > 0 && cr.r.Buffered() < 2 {\n			cr.checkEnd = true\n			return n, nil\n		}\n		cr.endChunk()\n	}\n	return n, cr.err\n}\n\n// endChunk consumes the CRLF that terminates the data of a chunk.\nfunc (cr *chunkedReader) endChunk() {\n	cr.checkEnd = false\n	if _, cr.err = io.ReadFull(cr.r, cr.buf[:]); cr.err == nil {\n		if cr.buf[0] != '\\r' || cr.buf[1] != '\\n' {\n			cr.err = errors.New(\"malformed chunked encoding\")\n		}\n	}\n}\n\n"},
+			{Name: "carve-capacity-two", File: "bfe_net/textproto/reader.go", Old: "vv, strs = strs[:1:1], strs[1:]", New: "vv, strs = strs[:1:2], strs[1:]", Expect: "header-storage|bfe_net/textproto.Reader.ReadMIMEHeaderAndKeys:insert"},
+			{Name: "clone-carve-uncapped", File: "bfe_http/header.go", Old: "	h2 := make(Header, len(h))\n	for k, vv := range h {\n		vv2 := make([]string, len(vv))\n		copy(vv2, vv)\n		h2[k] = vv2\n	}\n	return h2\n", New: "	h2 := make(Header, len(h))\n	nv := 0\n	for _, vv := range h {\n		nv += len(vv)\n	}\n	sv := make([]string, nv) // shared backing array for the values of all keys\n	for k, vv := range h {\n		n := copy(sv, vv)\n		h2[k] = sv[:n]\n		sv = sv[n:]\n	}\n	return h2\n", Expect: "header-storage|bfe_http.Header.Clone:insert"},
+			{Name: "silent-clone-carve-capped", Silent: true, File: "bfe_http/header.go", Old: "	h2 := make(Header, len(h))\n	for k, vv := range h {\n		vv2 := make([]string, len(vv))\n		copy(vv2, vv)\n		h2[k] = vv2\n	}\n	return h2\n", New: "	h2 := make(Header, len(h))\n	nv := 0\n	for _, vv := range h {\n		nv += len(vv)\n	}\n	sv := make([]string, nv) // shared backing array for the values of all keys\n	for k, vv := range h {\n		n := copy(sv, vv)\n		h2[k] = sv[:n:n]\n		sv = sv[n:]\n	}\n	return h2\n"},
 		},
 	})
 }
@@ -103,6 +111,39 @@ func runC24(c *core.Ctx) {
 	c24ReadRequest(c, fx)
 	c24MIME(c, fx)
 	c24MethodIndependent(c, fx)
+	c24ErrorLatch(c, fx)
+	c24HeaderStorage(c)
+}
+
+// ------------------------------------------------------------ (h) a recorded rejection is never overwritten
+
+// c24ErrorLatch: the body decoders of bfe_http record "this message is
+// malformed" in a sticky error field of the reader (chunkedReader.err) and
+// every later Read fails with it. The verdict is lost if the field is assigned
+// a value that may be nil while an error stored since the last `field == nil`
+// test may still be in it (e.g. the CRLF check of a chunk followed, without a
+// test, by the read of the next chunk-size line). Obligations: every store to
+// the error field in the Read method of every struct type of bfe_http that has
+// one, and in the methods Read calls on the same receiver.
+func c24ErrorLatch(c *core.Ctx, fx *h1aFacts) {
+	c.Min("error-latch", 6)
+	h1cErrorLatch(c, fx, "error-latch", "bfe_http", "chunkedReader.err")
+}
+
+// ------------------------------------------------------------ (i) field values do not share writable storage
+
+// c24HeaderStorage: the header block parser cuts the value lists of the keys
+// out of one preallocated block. A list whose capacity reaches into the part
+// of the block handed to later keys lets `append` (a repeated field line)
+// overwrite another field's value - for instance the Content-Length the
+// framing is then taken from. Obligations: every insertion of a value list
+// into a map[string][]string in bfe_net/textproto and bfe_http.
+func c24HeaderStorage(c *core.Ctx) {
+	c.Min("header-storage", 6)
+	h1cCarves(c, "header-storage", "bfe_net/textproto", "bfe_http")
+	if c.P.Func("bfe_net/textproto", "Reader.ReadMIMEHeaderAndKeys") == nil {
+		c.Missing("bfe_net/textproto.Reader.ReadMIMEHeaderAndKeys")
+	}
 }
 
 // ------------------------------------------------------------ (a) multiplicity
